@@ -154,6 +154,8 @@ type Exec struct {
 	splitPathRun     bool
 	pendingAll       bool
 	declaredAll      bool
+	baseAlloc        map[int]*Term
+	curLoopState     *State
 	allocChecked     bool    // C18: allocation sizes must be justified
 	availLens        []*Term // lengths of input already in hand (len of []byte inputs, Len() of readers)
 }
@@ -255,7 +257,47 @@ func (x *Exec) comp(st *State, name string, s Sort) *Term {
 	x.compSort[name] = s
 	t := x.w.Const(fmt.Sprintf("%s!%d", name, st.epoch), s)
 	st.heap[name] = t
+	if st.epoch == 0 {
+		x.noteBase(t, x.w.Const("alloc!0", SInt))
+	} else {
+		x.noteBase(t, st.alloc)
+	}
 	return t
+}
+
+// noteBase records, for a base heap component (initial or havoced), a bound on
+// the references it can contain: everything stored in it was allocated before.
+func (x *Exec) noteBase(t *Term, alloc *Term) {
+	if x.baseAlloc == nil {
+		x.baseAlloc = map[int]*Term{}
+	}
+	if _, ok := x.baseAlloc[t.id]; !ok {
+		x.baseAlloc[t.id] = alloc
+	}
+}
+
+// baseValid: the value found at idx in the base component under a store chain
+// is a valid value of typ with respect to the allocation bound of that base.
+func (x *Exec) baseValid(comp *Term, typ types.Type, idx ...*Term) {
+	t := comp
+	for t.kind == kApp && t.op == "store" {
+		t = t.args[0]
+	}
+	if t.kind != kLeaf {
+		return
+	}
+	al, ok := x.baseAlloc[t.id]
+	if !ok {
+		return
+	}
+	v := t
+	for _, i := range idx {
+		if _, _, isArr := v.sort.arrParts(); !isArr {
+			return
+		}
+		v = x.w.ts.Select(v, i)
+	}
+	x.assume(x.w.validFacts(v, typ, al, 0))
 }
 
 func (x *Exec) fieldComp(structT types.Type, i int) (string, Sort) {
@@ -291,6 +333,7 @@ func (x *Exec) havocComp(st *State, name string) {
 		return
 	}
 	st.heap[name] = x.w.Fresh(name, s)
+	x.noteBase(st.heap[name], st.alloc)
 }
 
 // ---------------------------------------------------------------------------
@@ -1041,6 +1084,7 @@ type autoInv struct {
 	phi   *ssa.Phi
 	entry *Term
 	up    bool
+	bound *Term // non-nil: phi < bound or phi == entry
 }
 
 type loopInfo struct {
